@@ -1664,4 +1664,196 @@ theorem canonParts_wf (hbr : netlocOk (canonParts puny quoted sf p).netloc = tru
 
 end
 
+/-! ## the bracket check on the printed netloc -/
+
+theorem contains_false_of_not_mem {s : Str} {c : Char} (h : c ∉ s) : s.contains c = false := by
+  cases hc : s.contains c with
+  | false => rfl
+  | true => exact absurd (List.contains_iff_mem.1 hc) h
+
+theorem contains_true_of_mem {s : Str} {c : Char} (h : c ∈ s) : s.contains c = true :=
+  List.contains_iff_mem.2 h
+
+theorem netlocOk_of_no_bracket {nl : Str} (h1 : '[' ∉ nl) (h2 : ']' ∉ nl) : netlocOk nl = true := by
+  unfold netlocOk
+  simp only [contains_false_of_not_mem h1, contains_false_of_not_mem h2, bne_self_eq_false,
+    Bool.false_eq_true, if_false]
+
+/-- the printed netloc passes the bracket check iff its bracketed host does, when no other
+component holds a bracket -/
+theorem netlocOk_printed (U P H : Str) (port : Option Nat)
+    (hU : '[' ∉ U ∧ ']' ∉ U) (hP : '[' ∉ P ∧ ']' ∉ P) (hH : '[' ∉ H ∧ ']' ∉ H)
+    (hbr : ':' ∈ H → bracketedHostOk H = true) :
+    netlocOk (authPart U P ++ (hostPart H ++ portPart port)) = true := by
+  have hA : '[' ∉ authPart U P ∧ ']' ∉ authPart U P := by
+    constructor <;> intro hm <;> rcases mem_authPart hm with h | h | h | h
+    · exact hU.1 h
+    · exact hP.1 h
+    · cases h
+    · cases h
+    · exact hU.2 h
+    · exact hP.2 h
+    · cases h
+    · cases h
+  have hpp : '[' ∉ portPart port ∧ ']' ∉ portPart port := by
+    constructor <;> intro hm <;> rcases mem_portPart hm with h | h
+    · cases h
+    · revert h; decide
+    · cases h
+    · revert h; decide
+  have hsw : startsWith H ['['] = false := by
+    cases H with
+    | nil => rfl
+    | cons c r =>
+      rw [startsWith_cons_cons, startsWith_nil]
+      have : c ≠ '[' := fun e => hH.1 (by simp [e])
+      simp [this]
+  by_cases hc : ':' ∈ H
+  · have hp : hostPart H = '[' :: (H ++ [']']) := by unfold hostPart; simp [hc, hsw]
+    rw [hp]
+    unfold netlocOk
+    have hL : (authPart U P ++ ('[' :: (H ++ [']']) ++ portPart port)).contains '[' = true :=
+      contains_true_of_mem (by simp)
+    have hR : (authPart U P ++ ('[' :: (H ++ [']']) ++ portPart port)).contains ']' = true :=
+      contains_true_of_mem (by simp)
+    simp only [hL, hR, bne_self_eq_false, Bool.false_eq_true, if_false, if_true]
+    have e : authPart U P ++ ('[' :: (H ++ [']']) ++ portPart port) =
+        authPart U P ++ ('[' :: (H ++ (']' :: portPart port))) := by simp
+    rw [e, dropWhile_append_stop _ _ _ (fun c hc => by
+        simp only [ne_eq, decide_eq_true_eq]; rintro rfl; exact hA.1 hc)
+        (fun c hc => by simp at hc; simp [← hc])]
+    simp only [List.drop_succ_cons, List.drop_zero]
+    rw [takeWhile_append_stop _ _ _ (fun c hc => by
+        simp only [ne_eq, decide_eq_true_eq]; rintro rfl; exact hH.2 hc)
+        (fun c hc => by simp at hc; simp [← hc])]
+    exact hbr hc
+  · have hp : hostPart H = H := by unfold hostPart; simp [hc]
+    rw [hp]
+    apply netlocOk_of_no_bracket
+    · intro hm
+      rcases List.mem_append.1 hm with h | h
+      · exact hA.1 h
+      · rcases List.mem_append.1 h with h | h
+        · exact hH.1 h
+        · exact hpp.1 h
+    · intro hm
+      rcases List.mem_append.1 hm with h | h
+      · exact hA.2 h
+      · rcases List.mem_append.1 h with h | h
+        · exact hH.2 h
+        · exact hpp.2 h
+
+theorem lower_length (s : Str) : (lower s).length = s.length := by simp [Py.lower]
+
+/-- the accessor's lower-casing does nothing to a lower-cased host -/
+theorem lowerHost_of_lower_fixed (s : Str) (h : lower s = s) : lowerHost s = s := by
+  have hspec := splitFirst_spec_s20 s '%'
+  unfold lowerHost
+  cases hz : (splitFirst s '%').2 with
+  | none =>
+    rw [hz] at hspec
+    simp only [List.append_nil]
+    rw [← hspec.2]; exact h
+  | some z =>
+    rw [hz] at hspec
+    simp only
+    have h2 : lower ((splitFirst s '%').1 ++ '%' :: z) = (splitFirst s '%').1 ++ '%' :: z := by
+      rw [← hspec.2]; exact h
+    rw [lower_append] at h2
+    have := (List.append_inj h2 (lower_length _)).1
+    rw [this]; exact hspec.2.symm
+
+/-! ## re-parsing the printed result -/
+
+/-- the old components hold no bracket other than the pair around an IP literal (the region
+outside is KF-C01-1 / KF-C01-2: `canonicalize_url` prints a URL that no longer parses) -/
+structure NoOddBracket (p : Parsed) : Prop where
+  user : ∀ u, p.username = some u → '[' ∉ u ∧ ']' ∉ u
+  pass : ∀ u, p.password = some u → '[' ∉ u ∧ ']' ∉ u
+  host : ∀ h, p.hostname = some h → '[' ∉ h ∧ ']' ∉ h
+
+/-- what the parser reads from the printed result, in terms of the components
+`canonComps` computed: a falsy user / password / host reads back as absent (a password
+without user gives the empty user) -/
+def reparsed (c : Comps) : Parsed :=
+  { scheme := c.scheme, netloc := unsplitNetloc c.user c.pass c.host c.port, path := c.path,
+    query := c.query, fragment := c.fragment.getD [],
+    username := if strOf c.pass ≠ [] ∨ strOf c.user ≠ [] then some (strOf c.user) else none,
+    password := if strOf c.pass ≠ [] then some (strOf c.pass) else none,
+    hostname := if strOf c.host = [] then none else some (strOf c.host),
+    port := c.port }
+
+section
+variable {puny : Str → Str} (hpc : PunyClean puny) (quoted sf : Bool) {S rest : Str} {p : Parsed}
+  (h : FromParse S rest p)
+include hpc h
+
+theorem host_lower_fixed :
+    lower (strOf (canonComps puny quoted sf p).host) = strOf (canonComps puny quoted sf p).host := by
+  have he : (canonComps puny quoted sf p).host = (match p.hostname with
+      | some h => if h.isEmpty then some h else some (canonHost puny h)
+      | none => none) := by
+    simp only [canonComps]
+    cases p.hostname <;> rfl
+  rw [he]
+  cases p.hostname with
+  | none => simp [strOf_none, Py.lower]
+  | some u =>
+    by_cases hu : u.isEmpty = true
+    · have : u = [] := by simpa using hu
+      subst this; simp [strOf_some, Py.lower]
+    · simp only [hu, Bool.false_eq_true, if_false, strOf_some]
+      unfold canonHost; exact lower_idem _
+
+theorem new_comps_no_bracket (hnb : NoOddBracket p) :
+    ('[' ∉ strOf (canonComps puny quoted sf p).user ∧ ']' ∉ strOf (canonComps puny quoted sf p).user) ∧
+    ('[' ∉ strOf (canonComps puny quoted sf p).pass ∧ ']' ∉ strOf (canonComps puny quoted sf p).pass) := by
+  refine ⟨⟨?_, ?_⟩, ⟨?_, ?_⟩⟩
+  · intro hm
+    obtain ⟨u, _, _, hu, hcu⟩ := user_mem hpc quoted sf h hm
+    exact requote_auth_not_mem (by simp) quoted u (hnb.user u hu).1 hcu
+  · intro hm
+    obtain ⟨u, _, _, hu, hcu⟩ := user_mem hpc quoted sf h hm
+    exact requote_auth_not_mem (by simp) quoted u (hnb.user u hu).2 hcu
+  · intro hm
+    obtain ⟨u, _, hu, hcu⟩ := pass_mem hpc quoted sf h hm
+    exact requote_auth_not_mem (by simp) quoted u (hnb.pass u hu).1 hcu
+  · intro hm
+    obtain ⟨u, _, hu, hcu⟩ := pass_mem hpc quoted sf h hm
+    exact requote_auth_not_mem (by simp) quoted u (hnb.pass u hu).2 hcu
+
+theorem netlocOk_new (hnb : NoOddBracket p)
+    (hbr : ':' ∈ strOf (canonComps puny quoted sf p).host →
+      bracketedHostOk (strOf (canonComps puny quoted sf p).host) = true) :
+    netlocOk (canonParts puny quoted sf p).netloc = true := by
+  have hacc := accessor_hyps hpc quoted sf h hnb.host
+  obtain ⟨hu, hpw⟩ := new_comps_no_bracket hpc quoted sf h hnb
+  show netlocOk (unsplitNetloc _ _ _ _) = true
+  rw [unsplitNetloc_eq]
+  exact netlocOk_printed _ _ _ _ hu hpw ⟨hacc.2.1.2.1, hacc.2.1.2.2⟩ hbr
+
+/-- **re-parsing the printed result gives the computed components back** -/
+theorem parseUrl_printed (hnb : NoOddBracket p)
+    (hbr : ':' ∈ strOf (canonComps puny quoted sf p).host →
+      bracketedHostOk (strOf (canonComps puny quoted sf p).host) = true) :
+    parseUrl (urlunsplit (canonParts puny quoted sf p)) =
+      some (reparsed (canonComps puny quoted sf p)) := by
+  have hok := netlocOk_new hpc quoted sf h hnb hbr
+  have hwf := canonParts_wf hpc quoted sf h hok
+  have hacc := accessor_hyps hpc quoted sf h hnb.host
+  obtain ⟨a1, a2, a3, a4⟩ := accessors_unsplitNetloc (canonComps puny quoted sf p).user
+    (canonComps puny quoted sf p).pass (canonComps puny quoted sf p).host
+    (canonComps puny quoted sf p).port hacc.1 hacc.2.1 hacc.2.2
+  rw [urlunsplit_eq_urlunsplit20]
+  unfold parseUrl
+  rw [urlsplit_urlunsplit20 _ _ _ _ _ hwf]
+  have hnl : (canonParts puny quoted sf p).netloc =
+      unsplitNetloc (canonComps puny quoted sf p).user (canonComps puny quoted sf p).pass
+        (canonComps puny quoted sf p).host (canonComps puny quoted sf p).port := rfl
+  simp only [hnl, a4]
+  simp only [parsedOf, reparsed, a1, a2, a3, canonParts,
+    lowerHost_of_lower_fixed _ (host_lower_fixed hpc quoted sf h)]
+
+end
+
 end Ural.CanonRoundTrip
